@@ -16,17 +16,17 @@ func initVariantTypeParameterNode() {
 			argName := (string)(args[1].MustReference().(value.String))
 
 			var argLowerBound ast.TypeNode
-			if !args[2].IsUndefined() {
+			if !args[2].IsUndefined() && !args[2].IsNil() {
 				argLowerBound = args[2].MustReference().(ast.TypeNode)
 			}
 
 			var argUpperBound ast.TypeNode
-			if !args[3].IsUndefined() {
+			if !args[3].IsUndefined() && !args[3].IsNil() {
 				argUpperBound = args[3].MustReference().(ast.TypeNode)
 			}
 
 			var argDefault ast.TypeNode
-			if !args[4].IsUndefined() {
+			if !args[4].IsUndefined() && !args[4].IsNil() {
 				argDefault = args[4].MustReference().(ast.TypeNode)
 			}
 
